@@ -175,18 +175,21 @@ def run(ctx):
     arg = decs[0].args[0]
     size_var = assigned_from(rd, ucall)
     construct = "read:body"
-    if not isinstance(arg, ast.Name):
-        ctx.fail("R4.5", construct, f"the decoder is given {norm(arg)}, not a freshly read bytes object", decs[0], key="R4.5:read:body-not-fresh-read")
-    else:
-        defs = [st for st in walk_no_nested(rd) if isinstance(st, ast.Assign) and norm(st.targets[0]) == arg.id]
+    def is_fresh_read(v):
+        return isinstance(v, ast.Call) and isinstance(v.func, ast.Attribute) and v.func.attr == "read" and norm(v.func.value) == "self.fp" and [norm(a) for a in v.args] == [size_var] and not v.keywords
+
+    if isinstance(arg, ast.Name):
         rdefs = rcfg.reaching_defs(arg.id)[rcfg.node_of(decs[0]).id]
         reaching = [rcfg.nodes[i].ast for i in rdefs if rcfg.nodes[i].ast is not None]
-        fresh = bool(reaching) and all(isinstance(st, ast.Assign) and isinstance(st.value, ast.Call) and isinstance(st.value.func, ast.Attribute)
-                                       and st.value.func.attr == "read" and norm(st.value.func.value) == "self.fp"
-                                       and [norm(a) for a in st.value.args] == [size_var] for st in reaching)
-        ctx.check(fresh, "R4.5", construct, f"the object handed to the decoder is defined by {[norm(r)[:60] for r in reaching]}, not by `self.fp.read({size_var})`: with a "
-                  "reused buffer or an unchecked readinto a short read leaves bytes of an earlier frame in place and a record that was never completely "
-                  "written can be decoded", decs[0], f"{arg.id} = self.fp.read({size_var})", key="R4.5:read:body-not-fresh-read")
+        values = [st.value if isinstance(st, ast.Assign) and len(st.targets) == 1 and isinstance(st.targets[0], ast.Name) else None for st in reaching]
+        shown = [norm(r)[:60] for r in reaching]
+    else:
+        values = [arg]  # the read is written in the argument position itself
+        shown = [norm(arg)[:60]]
+    fresh = bool(values) and all(is_fresh_read(v) for v in values)
+    ctx.check(fresh, "R4.5", construct, f"the object handed to the decoder is defined by {shown}, not by `self.fp.read({size_var})`: with a "
+              "reused buffer or an unchecked readinto a short read leaves bytes of an earlier frame in place and a record that was never completely "
+              "written can be decoded", decs[0], f"self.packer.unpack(self.fp.read({size_var}))", key="R4.5:read:body-not-fresh-read")
     readinto = [c for c in calls_in(rd) if isinstance(c.func, ast.Attribute) and c.func.attr in ("readinto", "readinto1", "recv_into")]
     ctx.check(not readinto, "R4.5", "read:no-readinto", "readinto() fills a caller-owned buffer; its return value (bytes actually read) is not compared with the frame size",
               readinto[0] if readinto else rd, "no readinto", key="R4.5:read:readinto")
